@@ -115,6 +115,19 @@ fn c07(rng: &mut Rng, idx: usize) -> Case {
         }
         _ => {}
     }
+    if idx % 15 == 8 {
+        // construction path: the JAX text files (the only one besides the binary format that yields
+        // obsolete / replaced terms, here together with annotations on them), then the round trip
+        let mut c = crate::gen_c09::c09(rng, "quick", 0);
+        c.tag = format!("text-{}", c.tag);
+        c.stat("text_route", 1);
+        c.op("asbytes 0".to_string());
+        c.op("roundtrip 0 1".to_string());
+        c.op("dump 1".to_string());
+        c.op("rtcheck 0 1".to_string());
+        c.op("same 0 1".to_string());
+        return c;
+    }
     let path = rng.below(6); // 0-2 builder, 3-5 bytes v1..v3
     let rebuilt = rng.chance(1, 4);
     let tag = match (path < 3, rebuilt) {
@@ -127,6 +140,19 @@ fn c07(rng: &mut Rng, idx: usize) -> Case {
     let max_terms = *rng.pick(&[3usize, 6, 12, 25]);
     let (mut f, shape) = gen_facts(rng, &DagOpts { max_terms, with_roots: true, max_recs: 5 });
     c.stat(&format!("shape_{shape:?}"), 1);
+    if idx % 30 == 5 {
+        // no gene at all, but diseases of both kinds: an empty section in front of non-empty ones
+        f.recs[0].clear();
+        f.links[0].clear();
+        for k in 1..3 {
+            if f.recs[k].is_empty() {
+                f.recs[k].push((77, gen_name(rng)));
+                let t = f.terms[rng.below(f.terms.len() as u64) as usize].0;
+                f.links[k].push((77, t));
+            }
+        }
+        c.stat("no_gene_but_diseases", 1);
+    }
     if idx % 30 == 11 {
         // a file whose LAST byte is a line feed / carriage return: the only ORPHA disease is
         // annotated to HP:0000010 / 13 / 266 / 269 as its largest term
@@ -385,6 +411,23 @@ fn c08(rng: &mut Rng, tier: &str, idx: usize) -> Case {
         f = gen_fan(rng, width);
         c.stat("fan_files", 1);
     }
+    if idx % 40 == 17 && !noroots {
+        // a file whose LAST byte is a line feed / carriage return: the only disease of the last
+        // section (ORPHA in v3, OMIM in v1 / v2) has HP:0000010 / 13 / 266 / 269 as its largest term
+        let last = *rng.pick(&[10u32, 13, 266, 269]);
+        if !f.terms.iter().any(|t| t.0 == last) {
+            f.terms.push((last, gen_name(rng)));
+            f.edges.push((118, last));
+        }
+        let k = if fv == 3 { 2 } else { 1 };
+        f.recs[2].clear();
+        f.links[2].clear();
+        f.recs[k].clear();
+        f.links[k].clear();
+        f.recs[k].push((5, gen_name(rng)));
+        f.links[k].push((5, last));
+        c.stat("files_ending_in_a_line_end_byte", 1);
+    }
     let mut deep = false;
     if idx % 40 == 31 && !noroots {
         // an is_a chain of depth 40..110 (beyond any shipped ontology); the term records leaf first
@@ -461,6 +504,8 @@ fn c08(rng: &mut Rng, tier: &str, idx: usize) -> Case {
         _ => (0..8).map(|_| rng.below(256) as u8).collect(),
     };
     c.op(format!("suffix {} {}", hex(&bytes), hex(&ext)));
+    // a trailing line break is an extension like any other
+    c.op(format!("suffix {} {}", hex(&bytes), *rng.pick(&["0a", "0d0a", "0a0a", "0d"])));
     if fv >= 2 {
         c.op(format!("verbyte {}", hex(&bytes)));
         c.stat("version_byte_values", 256);
